@@ -110,20 +110,6 @@ end
 
 /-! ### the hypotheses are satisfiable -/
 
-/-- `>` on naturals is a strict total order in the sense used here -/
-theorem natGt_strictTotal : StrictTotal (fun a b : Nat => decide (a > b)) :=
-  ⟨by intro a; simp, by intro a b c; simp; omega, by intro a b; simp; omega⟩
-
-/-- a two-node chain with an open cursor satisfies the node invariant -/
-def exDb : Db Nat String := ⟨[⟨1, [(9, "i"), (7, "g")]⟩, ⟨0, [(4, "d")]⟩], [(1, .at 0 1 0)]⟩
-
-theorem exDb_inv : NodeInv (fun a b : Nat => decide (a > b)) exDb.nodes := by
-  refine ⟨?_, ?_⟩
-  · intro n hn
-    simp [exDb] at hn
-    rcases hn with rfl | rfl <;> simp [cap]
-  · simp [Desc, exDb, flatten]
-
 example : Kv.get (fun a b : Nat => decide (a > b)) exDb 7 = some "g" ∧
     flatten (Kv.put (fun a b : Nat => decide (a > b)) exDb 5 "e" false 3).1.nodes = [(9, "i"), (7, "g"), (5, "e"), (4, "d")] := by
   have h := put_refines natGt_strictTotal exDb exDb_inv 5 "e" 3
